@@ -4,6 +4,7 @@ package symgo
 
 import (
 	"fmt"
+	"go/types"
 	"sort"
 
 	"golang.org/x/tools/go/ssa"
@@ -374,6 +375,45 @@ func (x *Exec) deepEqual(a, b Value, seen map[[2]interface{}]bool, conds *[]*Ter
 }
 
 func registerHeapPrelude2() {
+	// vUniCoeffs(v, n): v is a field element that is, up to noise terms, a univariate polynomial of degree < n in ONE atom: returns its n
+	// concrete coefficients (reduced); nil if v involves several atoms or a higher degree.  A concrete v is a constant.
+	preludeFns["vUniCoeffs"] = func(x *Exec, fn *ssa.Function, a []Value) Value {
+		n := x.constInt(a[1], "vUniCoeffs degree bound")
+		et := types.Typ[types.Uint64]
+		res := make([]uint64, n)
+		switch v := a[0].(type) {
+		case *Term:
+			if !v.IsConst() {
+				return Slice{}
+			}
+			res[0] = v.C
+		case *FE:
+			atom := -1
+			// noise terms (error / rounding atoms, as in vAssertNoiseFreeMod) are not part of the polynomial
+			for k, c := range x.dropClasses(v.P, ClsError, ClsRounding).terms {
+				ids := monoIDs(monoStr(k))
+				for _, id := range ids {
+					if atom == -1 {
+						atom = id
+					}
+					if id != atom {
+						return Slice{}
+					}
+				}
+				if len(ids) >= n {
+					return Slice{}
+				}
+				res[len(ids)] = c % v.P.q
+			}
+		default:
+			return Slice{}
+		}
+		s := x.makeSlice(et, n, n, "vUniCoeffs")
+		for i, c := range res {
+			s.Obj.Cells[s.Off+i] = x.ts.BV(c, 64)
+		}
+		return s
+	}
 	preludeFns["vAssertDeepEqual"] = func(x *Exec, fn *ssa.Function, a []Value) Value {
 		var conds []*Term
 		bad := ""
